@@ -56,7 +56,13 @@ class P(vlib.Prop):
             "provider values that contain references again (2 levels), references formed by an expanded '$', "
             "reference cycles with one reference per member); merge: 300 lists of 1-4 nested source maps with nils, "
             "lists, empty maps, non-map sources, a quarter with references, checked ALSO by a right-biased merge written "
-            "in Go (direct oracle). thorough = 12x. Non-trivial = every case except single-source merges; distinct = "
+            "in Go (direct oracle); deep: 220 configs whose lists / maps (in the source, inside lists, and as YAML provider "
+            "values with >= 3 distinct references reached through one whole-value or embedded reference) have members that "
+            "need different numbers of rounds (references to entries that contain references again), consumed through "
+            "string / []string / map[string]string targets and ToStringMap, checked ALSO member by member by the token "
+            "interpreter; dollar-name: 130 single-key configs with a reference whose name contains '$' (single, paired, "
+            "runs, any position; whole / embedded / in lists, maps, provider texts, nested, default scheme, escaped) over "
+            "providers that HAVE such entries, which must be refused with the '$' error. thorough = 12x. Non-trivial = every case except single-source merges; distinct = "
             "distinct case terms (duplicates are dropped by the harness).")
     trusted_base = [
         "Coq 8.16.1 kernel + vm_compute (coqc); no axioms (Print Assumptions: closed under the global context)",
